@@ -8,7 +8,7 @@ From Coq Require Import ZArith Bool List Lia.
 From GoSecs Require Import Base.GoInt Base.BytesBE Base.GoSlice Gen.Gen2.
 From GoSecs Require Import Secs1.Block Gen.Bridge2Secs1.
 From GoSecs Require Secs2.Encode Gen.Bridge2Secs2.
-From GoSecs Require Hsms.Header Hsms.Frame Hsms.Responder Gen.Bridge2Frames.
+From GoSecs Require Hsms.Header Hsms.Frame Hsms.Responder Gen.Bridge2Frames Gen.Bridge2FramesDecode.
 Import ListNotations.
 Open Scope Z_scope.
 
@@ -235,3 +235,68 @@ Proof. exact bridge_sysBytesGen_next. Qed.
 Print Assumptions tie_hsms_sysBytesGen_next.
 
 End TieHsms.
+
+(** * C03 — hsms/decode.go (the three decode entry points never panic and agree with
+    [decode_message] / [decode_payload] / [decode_owned] of Hsms/Frame.v on EVERY byte slice),
+    [NewRejectReq] / [GetRejectReasonCode] on the [Message] interface. *)
+Module TieHsmsDecode.
+Import Hsms.Header Hsms.Frame Gen.Bridge2Frames Gen.Bridge2FramesDecode.
+
+Theorem tie_hsms_rawFrameBody_Len : forall body,
+  Gen2.wire.rawFrameBody_Len (Gen2.wire.mk_rawFrameBody body) = GOk (go_len body).
+Proof. exact bridge_rawFrameBody_Len. Qed.
+Print Assumptions tie_hsms_rawFrameBody_Len.
+
+Theorem tie_hsms_rawFrameBody_AppendTo : forall body dst,
+  Gen2.wire.rawFrameBody_AppendTo (Gen2.wire.mk_rawFrameBody body) dst = GOk (dst ++ body).
+Proof. exact bridge_rawFrameBody_AppendTo. Qed.
+Print Assumptions tie_hsms_rawFrameBody_AppendTo.
+
+Theorem tie_hsms_decodeOwnedFrame : forall owned big,
+  bytes_ok owned ->
+  Gen2.hsms.decodeOwnedFrame owned = GOk (dres_of big (decode_owned owned)).
+Proof. exact bridge_decodeOwnedFrame. Qed.
+Print Assumptions tie_hsms_decodeOwnedFrame.
+
+Theorem tie_hsms_DecodeOwnedHSMSPayload : forall p,
+  bytes_ok p ->
+  Gen2.hsms.DecodeOwnedHSMSPayload p = GOk (dres_of big_payload (decode_payload 16777215 p)).
+Proof. exact bridge_DecodeOwnedHSMSPayload. Qed.
+Print Assumptions tie_hsms_DecodeOwnedHSMSPayload.
+
+Theorem tie_hsms_DecodeHSMSPayload : forall p,
+  bytes_ok p ->
+  Gen2.hsms.DecodeHSMSPayload p = GOk (dres_of big_payload (decode_payload 16777215 p)).
+Proof. exact bridge_DecodeHSMSPayload. Qed.
+Print Assumptions tie_hsms_DecodeHSMSPayload.
+
+Theorem tie_hsms_DecodeHSMSMessage : forall data,
+  bytes_ok data ->
+  Gen2.hsms.DecodeHSMSMessage data = GOk (dres_of big_message (decode_message 16777215 data)).
+Proof. exact bridge_DecodeHSMSMessage. Qed.
+Print Assumptions tie_hsms_DecodeHSMSMessage.
+
+Theorem tie_hsms_DataMessage_Type : forall d dec,
+  Gen2.hsms.DataMessage_Type (dm_of d dec) = GOk ST_DATA.
+Proof. exact bridge_DataMessage_Type. Qed.
+Print Assumptions tie_hsms_DataMessage_Type.
+
+Theorem tie_hsms_NewRejectReq : forall m dec reason,
+  msg_h5_ok m ->
+  Gen2.hsms.NewRejectReq (msg_of dec m) reason = GOk (cm_of (new_reject_req m reason)).
+Proof. exact bridge_NewRejectReq. Qed.
+Print Assumptions tie_hsms_NewRejectReq.
+
+Theorem tie_hsms_GetRejectReasonCode : forall m dec,
+  msg_h5_ok m ->
+  Gen2.hsms.GetRejectReasonCode (msg_of dec m) = GOk (reject_result_of (get_reject_reason m)).
+Proof. exact bridge_GetRejectReasonCode. Qed.
+Print Assumptions tie_hsms_GetRejectReasonCode.
+
+Theorem tie_hsms_ControlMessage_RejectReasonCode : forall c,
+  0 <= h5 (c_hdr c) < 256 ->
+  Gen2.hsms.ControlMessage_RejectReasonCode (cm_of c) = GOk (reject_result_of (get_reject_reason (MCtrl c))).
+Proof. exact bridge_ControlMessage_RejectReasonCode. Qed.
+Print Assumptions tie_hsms_ControlMessage_RejectReasonCode.
+
+End TieHsmsDecode.
